@@ -10,6 +10,10 @@ CLAIMED = {
           "Theorem blocks_model_eq_spec: for every input list, size>=1, hop>=1 and pad value the statement-by-statement model of the blocks generator yields exactly the closed-form blocks (complete hop-spaced windows, then the padded tail iff it holds more than max(size-hop,0) items); zero_pad likewise. The model is tied to /repo by running blocks / Stream.blocks / zero_pad on an exhaustive grid and letting Coq compare observation, model and spec by vm_compute.",
           "Coq kernel + vm_compute; hand-written model (coq/theories/C08/Model.v) tied by correspondence on the enumerated grid only; CPython deque/generator semantics assumed", "5/C08"),
 }
+CLAIMED["C16"] = (
+  "Coq proof by forward simulation (invariant over the mixer state incl. the no-drift counter identity) that the Streamix model refines the closed-form history spec + differential execution of histories in exact arithmetic evaluated inside Coq",
+  "Theorem run_eq_spec_run: for every history of add/next operations (any length, any exact rational deltas/data, keep on/off, any zero) the line-by-line model of Streamix produces exactly the outputs of the closed form (event i sounds from S_i = max(ceil(T_i - 1/2), samples already produced when added), output n = zero + items due at n, end when every event has ended); corollaries: negative delta rejected, never early, nearest-sample start, keep never stops, ControlStream yields the last assigned value. Model tied to /repo by exhaustive small + seeded random histories run on the real Streamix/ControlStream with exact rationals and compared in Coq.",
+  "Coq kernel + vm_compute; hand-written model (coq/theories/C16/Model.v); exact rationals (ExactQ) stand for floats: float rounding of fractional deltas in the real counter is outside the model", "5/C16")
 NOT_YET = {}
 
 def main():
